@@ -28,6 +28,7 @@ fn budget(t: Tier) -> Budget {
         cases: t.pick(300_000, 20_000_000),
         max_len: 24,
         shards: 16,
+        dual_profile: false,
     }
 }
 
